@@ -462,6 +462,14 @@ def random_trace(seed, tid, workdir, props):
     tgt.atoms_positions = tpos
     ev = []
     m = ExchangeMap(refmol, tgt, s)
+    # the map captures the construction conformations: later changes to the objects it was built from
+    # (before its first use, too) must not matter.  From here on `refmol` is a copy holding the reference conformation.
+    built_from = refmol
+    refmol = built_from.copy()
+    refmol.atoms_positions = pos
+    if rng.random() < 0.5:
+        tgt.atoms_positions = tpos @ _random_rotation(rng).T + rng.normal(size=3) * 3
+        built_from.atoms_positions = pos @ _random_rotation(rng).T + rng.normal(size=3) * 3
     anchor_of = {}
     for a, ts in m.equivalences.items():
         for t in ts:
